@@ -12,7 +12,11 @@ CONFIG = dict(
                "byte-level reference checker (valid UPDATE + corruption list -> allowed outcomes) accepts what the model makes of "
                "the rendered bytes: never a panic or a stall, withdrawals kept, a reset only for a case whose damage touches the "
                "block framing / NLRI location, treat-as-withdraw whenever a class demands it, a discardable malformed attribute "
-               "never on an announced route, the second copy of a duplicated attribute never believed. The same checker is the "
+               "never on an announced route, the second copy of a duplicated attribute never believed, a reset only with an UPDATE "
+               "Message Error code; in the cases whose framing is damaged (a reset is acceptable there) an attribute IN FRONT of "
+               "the damage that demands treat-as-withdraw still forbids announcing the route (weak_prefix clause). The "
+               "property's attribute classes are proved equal, row by row, to a table taken from the documents that define each "
+               "type (classification_table_rfc). The same checker is the "
                "oracle on the real code for every generated case, and model and real code are diffed on the rendered bytes and "
                "the full Message list. Packet half only: the RIB after rx_msg is out of scope of this version.",
     level_note="Trusted: Lean kernel; axioms propext/Classical.choice/Quot.sound; hand-written model (checked only by the "
@@ -29,6 +33,7 @@ CONFIG = dict(
         "Rbgp.Wire.UProps.validate_check_ok",
         "Rbgp.Wire.UProps.check_run_ok_full",
         "Rbgp.Wire.UProps.nonvacuous_full",
+        "Rbgp.Wire.UProps.nonvacuous_weak_prefix",
         "Rbgp.Wire.UProps.taw_no_reach",
         "Rbgp.Wire.UProps.must_taw_is_taw",
         "Rbgp.Wire.UProps.withdrawals_preserved",
@@ -39,6 +44,7 @@ CONFIG = dict(
         "Rbgp.Wire.UProps.classification_table_types",
         "Rbgp.Wire.UProps.classification_table_flags",
         "Rbgp.Wire.UProps.classification_table",
+        "Rbgp.Wire.UProps.classification_table_rfc",
         "Rbgp.Wire.UProps.reset_only_if_nlri_unlocatable",
         "Rbgp.Wire.UProps.attr_loop_reset_only_duplicate_mp",
         "Rbgp.Wire.UProps.nonvacuous_discard",
@@ -56,7 +62,9 @@ CONFIG = dict(
          "(bad length, ORIGIN > 2, bad segment type / count, AIGP TLV length, ...), length field only, duplicate (same / "
          "different value), omission, attribute-block truncation by 0-8 bytes, appended unrecognised attribute of each flag "
          "class, bad legacy NLRI prefix length; codec = IPv4/IPv6 unicast with AddPath, extended message, 2-octet AS; both sides "
-         "render the bytes themselves. non-trivial = the outcome is a reset or contains a reach/unreach message; distinct = "
+         "render the bytes themselves. Also: TUNNEL_ENCAP (23) and BGP-LS (29, sometimes > 255 bytes with extended length), a "
+         "260-byte COMMUNITIES value, MP families IPv4/IPv6 multicast besides unicast; the harness negotiates ADD-PATH so that "
+         "the send direction differs from the receive direction in about half of the codecs. non-trivial = the outcome is a reset or contains a reach/unreach message; distinct = "
          "distinct case line",
     expect_tokens=["(reset 3 1 ", "(reset 3 9 ", "(reach 65537 ", "(reach 131073 ", "(unreach 65537 ", "(unreach 131073 ",
                    "(ok)", " opq ", " val ", "(eor "],
@@ -65,9 +73,20 @@ CONFIG = dict(
                   "c05.rs `render` (diffed byte for byte on every case)",
                   "the byte-level reference checker lean/Rbgp/Wire/UpdateSpec.lean `check` (oracle on the real code; its agreement "
                   "with the model is theorem check_run_ok_full)"],
-    modelled_not_verified=["PeerSession::rx_msg / Table::insert|remove (end-to-end half: which routes the RIB holds afterwards)",
+    modelled_not_verified=["PeerSession::rx_msg / Table::insert|remove (end-to-end half: which routes the RIB holds afterwards); "
+                           "NOT executed by this check: ./check runs one harness per property and this one is the packet-level "
+                           "binary; a daemon-side stream over harness/daemon/rig.rs (establish a session, install the pools, feed "
+                           "the rendered UPDATE, list the table) needs a second harness per property in ./check or its own "
+                           "property id",
+                           "judged by the model/implementation diff only, not by the oracle: a duplicated AS_PATH / AGGREGATOR / "
+                           "AS4_* (stored re-encoded) or NEXT_HOP (not in the attribute vector); an `(ok)` without any message "
+                           "when nothing demands treat-as-withdraw (a silently dropped valid UPDATE)",
                            "is_as_loop filtering between validate_message and rx_msg",
                            "attribute bodies of PREFIX_SID, TUNNEL_ENCAP, BGP-LS (not parsed at this layer)"],
     assumptions=["received bytes are octets (< 256)", "families in a codec are distinct"],
+    oracle_stats=True,
+    expect_judged=["judged", "judged-clean", "judged-must-taw", "judged-discard-class-withdrawn", "judged-dup",
+                   "judged-weak-only", "judged-weak-prefix-taw", "outcome-reset", "outcome-announced", "outcome-withdrawn",
+                   "has-taw-or-reset"],
     claimed=True,
 )
